@@ -890,10 +890,13 @@ func vdbDeepCache(c *Ctx, seq int) {
 	c.Hit("deep-cache-scenario")
 }
 
-// gatedPatch lets the harness stop a commit at the points where ldbManager.Add calls into the patch.
+// gatedPatch lets the harness stop a commit at the points where ldbManager.Add calls into the patch:
+// Replay is called (by RollbackPatch) after the parent view was opened and before the manager's lock is taken,
+// Dump is called while the lock is held, right before the write.
 type gatedPatch struct {
 	db.Patch
-	onDump func()
+	onDump   func()
+	onReplay func()
 }
 
 func (g *gatedPatch) Dump() []byte {
@@ -903,6 +906,14 @@ func (g *gatedPatch) Dump() []byte {
 		f()
 	}
 	return g.Patch.Dump()
+}
+func (g *gatedPatch) Replay(r db.PatchReplayer) error {
+	if g.onReplay != nil {
+		f := g.onReplay
+		g.onReplay = nil
+		f()
+	}
+	return g.Patch.Replay(r)
 }
 
 // vdbTwoWriters: two commits on the SAME parent issued concurrently, with the first one held while it owns the
@@ -933,13 +944,15 @@ func vdbTwoWriters(c *Ctx, seq int) {
 	pa, pb := db.NewPatch(), db.NewPatch()
 	pa.Put([]byte{3, 0xa}, []byte{0xa})
 	pb.Put([]byte{3, 0xb}, []byte{0xb})
-	hold, inLock := make(chan struct{}), make(chan struct{})
+	hold, inLock, bReady := make(chan struct{}), make(chan struct{}), make(chan struct{})
 	ga := &gatedPatch{Patch: pa, onDump: func() { close(inLock); <-hold }}
+	// writer B has opened its parent view and is about to look at the frontier / take the lock when A gets going
+	gb := &gatedPatch{Patch: pb, onReplay: func() { close(bReady); <-inLock }}
 	done := make(chan error, 2)
+	go func() { done <- m.Add(&vTx{commits: []db.Commit{&vCommit{id: idb, prev: root}}, patch: gb}) }()
+	<-bReady
 	go func() { done <- m.Add(&vTx{commits: []db.Commit{&vCommit{id: ida, prev: root}}, patch: ga}) }()
-	<-inLock // writer A is accepted and about to write, holding the lock
-	go func() { done <- m.Add(&vTx{commits: []db.Commit{&vCommit{id: idb, prev: root}}, patch: pb}) }()
-	// give writer B time to reach the lock (or, if the frontier is read before the lock, to read a stale frontier)
+	<-inLock // writer A is accepted and about to write, holding the lock; writer B resumes now
 	time.Sleep(time.Duration(20+c.R.Intn(40)) * time.Millisecond)
 	close(hold)
 	<-done
